@@ -49,9 +49,14 @@ def _model_to_dict(m):
     return out
 
 
-def run_z3_api(smt2, backend, timeout_s, seed=0):
+def run_z3_api(smt2, backend, timeout_s, seed=0, shuffle=0):
     ctx = z3.Context()
     fs = z3.parse_smt2_string(smt2, ctx=ctx)
+    if shuffle:
+        # nlsat's variable order follows the order of the assertions; a different order is often decisive
+        import random
+        fs = list(fs)
+        random.Random(1000 * shuffle).shuffle(fs)
     if backend == "z3":
         s = z3.Solver(ctx=ctx)
     elif backend == "nra":
@@ -63,11 +68,6 @@ def run_z3_api(smt2, backend, timeout_s, seed=0):
     else:
         raise ValueError(backend)
     s.set("timeout", int(timeout_s * 1000))
-    if seed:
-        try:
-            s.set("random_seed", seed)
-        except Exception:
-            pass
     s.add(fs)
     r = s.check()
     if r == z3.unsat:
@@ -125,6 +125,13 @@ def discharge(rec, plan=None, seed=0, budget_scale=1.0):
     if trivially is not None:
         return dict(status=trivially, backend="syntactic", variant="-", seconds=0.0, attempts=[], model=None)
     order = []
+    hint = rec.get("hint")          # strategy that discharged this very query before (baseline/ledger.json), tried first
+    if hint and smt.get(hint[0]):
+        order.append((hint[0], hint[1], 12))
+    if smt.get("clearcore"):
+        order.append(("clearcore", "z3", 3))
+    if smt.get("core"):
+        order.append(("core", "z3", 3))
     if smt.get("clearlin"):
         order.append(("clearlin", "smt", 3))
     if smt.get("clear"):
@@ -138,6 +145,16 @@ def discharge(rec, plan=None, seed=0, budget_scale=1.0):
         order.append(("use", "z3", 5))
         order.append(("use", "nra", 20))
     order.extend(plan)
+    # re-try the cheap, small variants with shuffled assertion orders before the long budgets
+    shuf = []
+    for v in ("clearcore", "core", "clear", "coi"):
+        if smt.get(v):
+            for k in range(1, 25):
+                shuf.append((v, "z3#%d" % k, 2.5))
+            break
+    if shuf:
+        cut = next((i for i, (vv, b, t) in enumerate(order) if t >= 10), len(order))
+        order = order[:cut] + shuf + order[cut:]
     sat_seen = False
     for variant, backend, tmo in order:
         text = smt.get(variant)
@@ -149,7 +166,9 @@ def discharge(rec, plan=None, seed=0, budget_scale=1.0):
         tmo = tmo * budget_scale
         t1 = time.time()
         try:
-            if backend in ("z3", "nra", "nlsat", "smt"):
+            if backend.startswith("z3#"):
+                st, model = run_z3_api(text, "z3", tmo, seed, shuffle=int(backend[3:]))
+            elif backend in ("z3", "nra", "nlsat", "smt"):
                 st, model = run_z3_api(text, backend, tmo, seed)
             else:
                 st, model = run_cli(text, backend, tmo)
@@ -335,6 +354,35 @@ def prune_defs(named_hyps, goal):
             keep.append((n, h))
         items = keep
     return items
+
+
+def core_hyps(named_hyps, goal):
+    """hypotheses without the by-products of earlier proof steps: facts 'proved:*' (assert-then-assume of earlier obligations)
+    are dropped, definitional facts 'def:*' are kept only for atoms the goal (transitively) mentions.  Sound: a subset."""
+    cache = {}
+    need = set(_vars_of(goal, cache))
+    defs = {}
+    rest = []
+    for n, h in named_hyps:
+        if n.startswith("proved:"):
+            continue
+        if n.startswith("def:"):
+            defs[n[4:]] = h
+            continue
+        rest.append(h)
+        need |= _vars_of(h, cache)
+    out = list(rest)
+    changed = True
+    used = set()
+    while changed:
+        changed = False
+        for atom, h in defs.items():
+            if atom in need and atom not in used:
+                used.add(atom)
+                out.append(h)
+                need |= _vars_of(h, cache)
+                changed = True
+    return out
 
 
 def near_hyps(hyps, goal):
